@@ -155,7 +155,7 @@ def k_snr(rec):
 KNOWN = {"C19-snr-10-14dB": k_snr}
 
 
-def cases(ctx):
+def _cases(ctx):
     rng = ctx.rng
     amps = [308, 512, 717, 1024, 1229, 1433]          # 0.30 .. 1.40 in 1/1024
     ratios = [0.0, 0.05, 0.1, 0.19, 0.21, 0.25, 0.31]
@@ -213,3 +213,15 @@ def cases(ctx):
         buf = [rng.randrange(0, 1500) if rng.random() < 0.5 else rng.randrange(0, 100) for _ in range(n)]
         yield dict(op="demod - %d %s" % (DEN, ",".join(map(str, buf))), real=("h:props.C19.run_demod", [buf, DEN, None]),
                    pred=["pred_no_bad17"], tag="garbage", trivial=True, info=dict(ratio=0))
+
+
+def cases(ctx):
+    """_cases with the operation of the source-generated model attached (RtlReader._process_buffer as translated from
+    the current source, run by gendriver on the same sample buffers)"""
+    for c in _cases(ctx):
+        real = c["real"]
+        if real[0] == "h:props.C19.run_demod" and real[1][2] is None and len(real[1][0]) < 6000:
+            c["gop"] = "!demod rtlreader.RtlReader__process_buffer %d %s" % (real[1][1], ",".join(map(str, real[1][0])))
+        elif real[0] == "h:props.C19.run_demod_seq" and sum(len(b) for b in real[1][0]) < 12000:
+            c["gop"] = "!demod rtlreader.RtlReader__process_buffer %d %s" % (real[1][1], ";".join(",".join(map(str, b)) for b in real[1][0]))
+        yield c
